@@ -88,6 +88,10 @@ def spelling_cells():
         cells.append((f"load mem_load_{sg}{bits}", f"{{ RddV = (int64_t)(({t})mem_load_{sg}{bits}(RsV)); }}"))
         cells.append((f"load mem_load_{sg}{bits} EA+imm", f"{{ EA = RsV + siV; RddV = (int64_t)(({t})mem_load_{sg}{bits}(EA)); }}"))
         cells.append((f"store mem_store_{sg}{bits}", f"{{ mem_store_{sg}{bits}(RsV, RttV); }}"))
+        # the load's own type decides how it is widened when no cast wraps it
+        cells.append((f"bare load mem_load_{sg}{bits} to pair", f"{{ RddV = mem_load_{sg}{bits}(RsV); }}"))
+        cells.append((f"bare load mem_load_{sg}{bits} to reg", f"{{ ReV = mem_load_{sg}{bits}(RsV); }}"))
+        cells.append((f"bare load mem_load_{sg}{bits} to local", f"{{ int64_t t = mem_load_{sg}{bits}(RsV); int64_t w; w = mem_load_{sg}{bits}(RsV + 8); RddV = t ^ (w >> 1); }}"))
         cells.append((f"store mem_store_{sg}{bits} EA", f"{{ EA = RsV + uiV; mem_store_{sg}{bits}(EA, RttV); RddV = (int64_t)(({t})mem_load_{sg}{bits}(EA)); }}"))
     for name, e in (("u8", "(uint8_t)RsV"), ("s8", "(int8_t)RsV"), ("u16", "(uint16_t)RsV"), ("s16", "(int16_t)RsV"),
                     ("s32", "RsV"), ("u32", "(uint32_t)RsV"), ("s64", "RttV"), ("u64", "(uint64_t)RttV"),
